@@ -465,10 +465,24 @@ impl QueryEngine {
                         }
                     }
                 }
-                // Recurse into AND/OR expressions
-                if matches!(binary.op, Operator::And | Operator::Or) {
+                // Recurse into AND expressions: both sides constrain the rows
+                if matches!(binary.op, Operator::And) {
                     Self::extract_time_from_expr(&binary.left, min_time, max_time);
                     Self::extract_time_from_expr(&binary.right, min_time, max_time);
+                }
+                // OR: a row only has to satisfy one side, so a bound holds only if
+                // both sides provide one, and then it is the looser of the two.
+                if matches!(binary.op, Operator::Or) {
+                    let (mut left_min, mut left_max) = (None, None);
+                    let (mut right_min, mut right_max) = (None, None);
+                    Self::extract_time_from_expr(&binary.left, &mut left_min, &mut left_max);
+                    Self::extract_time_from_expr(&binary.right, &mut right_min, &mut right_max);
+                    if let (Some(l), Some(r)) = (left_min, right_min) {
+                        *min_time = Some(min_time.unwrap_or(i64::MAX).min(l.min(r)));
+                    }
+                    if let (Some(l), Some(r)) = (left_max, right_max) {
+                        *max_time = Some(max_time.unwrap_or(i64::MIN).max(l.max(r)));
+                    }
                 }
             }
             Expr::Between(between) => {
